@@ -78,15 +78,19 @@ class Tracked(np.ndarray):
         return np.ndarray.__setitem__(self, k, v)
 
 
-def _space(dims, n=5):
-    return SearchSpace([[0.0] * dims, [1.0] * dims], [1.0 / (n - 1)] * dims, verbose=False)
+def _space(dims, n=5, lo=0.0, hi=1.0):
+    return SearchSpace([[lo] * dims, [hi] * dims], [(hi - lo) / (n - 1)] * dims, verbose=False)
 
 
-def _history(ctx, rows, dims, n=5, sym_points=False):
+# the no-write clause runs on a search space that is NOT the unit cube: a rescaling written into the history must change values
+LO, HI = 2.0, 10.0
+
+
+def _history(ctx, rows, dims, n=5, sym_points=False, lo=0, hi=1):
     pts = np.empty((rows, dims), dtype=object)
     for r in range(rows):
         for d in range(dims):
-            pts[r, d] = Fraction((2 * r + d + 1) % n, n - 1) if not sym_points else ctx.int(f"hp{r}_{d}", 0, n - 1) / (n - 1)
+            pts[r, d] = (lo + (hi - lo) * Fraction((2 * r + d + 1) % n, n - 1)) if not sym_points else ctx.int(f"hp{r}_{d}", 0, n - 1) / (n - 1)
     losses = np.empty(rows, dtype=object)
     for r in range(rows):
         losses[r] = ctx.real(f"hl{r}")
@@ -128,8 +132,8 @@ def case_untouched(kind, rows, dims, B):
             warnings.simplefilter("ignore")
             ctx.recip_mode = True
             ctx.mul_abstract = kind == "gp-ei"  # products as uninterpreted terms: over-approximates the feasible orderings (sound for 'no write on any path')
-            space = _space(dims)
-            pts, losses = _history(ctx, rows, dims)
+            space = _space(dims, lo=LO, hi=HI)
+            pts, losses = _history(ctx, rows, dims, lo=int(LO), hi=int(HI))
             log = []
             tp, tl = Tracked(pts, log), Tracked(losses, log)
             snap_p, snap_l = pts.copy(), losses.copy()
@@ -189,8 +193,8 @@ def _real_sampler(kind, B):
 
 def replay_untouched(kind, rows, dims, B, v):
     n = 5
-    space = _space(dims)
-    pts = np.array([[((2 * r + d + 1) % n) / (n - 1) for d in range(dims)] for r in range(rows)], dtype=float)
+    space = _space(dims, lo=LO, hi=HI)
+    pts = np.array([[LO + (HI - LO) * ((2 * r + d + 1) % n) / (n - 1) for d in range(dims)] for r in range(rows)], dtype=float)
     losses = np.array([float(f(v.get(f"hl{r}", r + 1.0))) for r in range(rows)], dtype=float)
     p0, l0 = pts.copy(), losses.copy()
     s = _real_sampler(kind, B)
@@ -425,5 +429,5 @@ def cases(tier, seed):
 MANIFEST = {
     "category": "other",
     "text": "Symbolic execution of every built-in sampler's real sample() on a write-tracked history with symbolic losses (all loss orderings, float32-overflow regions included): no write and identical cells afterwards; the real MLSurrogateSampler.sample_batch with a stub surrogate returning free predictions: fit received the history and for every prediction ordering the returned rows are the batch_size lowest; BestBatchSampler: on every path each proposal is proved to be a best point displaced by 1..range-1 precision steps on >= 1 coordinate and clipped.",
-    "note": "Learners/optimiser/betabinom/erfc are contract stubs; grid-aligned unit-cube search space; history <= 3 rows (quick); integer index arrays from the generator are concretised (all values explored).",
+    "note": "Learners/optimiser/betabinom/erfc are contract stubs; grid-aligned search space (bounds [2,10] for the no-write clause, unit cube elsewhere); history <= 3 rows (quick); integer index arrays from the generator are concretised (all values explored).",
 }
